@@ -255,7 +255,10 @@ static const int MAXOPS = 8192;
 static pbt::PropFn g_tramps[MAXOPS];
 template <int B> static void fill_block() { fill_tramps(g_tramps, std::make_integer_sequence<int, 0>()); }
 
-template <int Base, int... Is> static void fill_from(std::integer_sequence<int, Is...>) { ((g_tramps[Base + Is] = &tramp<Base + Is>), ...); }
+template <int Base, int... Is> static void fill_from(std::integer_sequence<int, Is...>) {
+	static const pbt::PropFn block[] = {&tramp<Base + Is>...};
+	for (size_t i = 0; i < sizeof...(Is); ++i) g_tramps[Base + i] = block[i];
+}
 
 int main(int argc, char** argv) {
 	fill_from<0>(std::make_integer_sequence<int, 1024>());
